@@ -8,7 +8,7 @@ Driver for C09. Case line (see harness/c09):
        <reqs: n (H j | D | N)…> <rounds: n (trig  n b…  (0 | 1 j)  pair)…>
     => LOG n <event>… RES <code> FIN <app> <met> RQ n <0|1|2>… RR n <0|1|2|9>…
 
-events:  s i a m | S i | y i a m | l r i | L r i | q k | Q k m | c | h i a m live | H i | f | p i a m | P i | r
+events:  s i a m z | S i | y i a m z | l r i | L r i | q k | Q k m | c | h i a m live | H i | f | p i a m | P i | r
 -/
 namespace Rivaas.DriverC09
 open Rivaas.Proto Rivaas.Lifecycle
@@ -63,9 +63,9 @@ def pScenario : P Scenario := do
 def pEv : P Ev := do
   let t ← tok
   match t with
-  | "s" => do let i ← nat; let a ← bool; let m ← bool; pure (.startIn i a m)
+  | "s" => do let i ← nat; let a ← bool; let m ← bool; let z ← bool; pure (.startIn i a m z)
   | "S" => Ev.startOut <$> nat
-  | "y" => do let i ← nat; let a ← bool; let m ← bool; pure (.ready i a m)
+  | "y" => do let i ← nat; let a ← bool; let m ← bool; let z ← bool; pure (.ready i a m z)
   | "l" => do let r ← nat; let i ← nat; pure (.reloadIn r i)
   | "L" => do let r ← nat; let i ← nat; pure (.reloadOut r i)
   | "q" => Ev.reqIn <$> nat
@@ -126,9 +126,9 @@ def pObs : P Obs := do
 def b01 (b : Bool) : String := if b then "1" else "0"
 
 def showEv : Ev → String
-  | .startIn i a m => s!"s {i} {b01 a} {b01 m}"
+  | .startIn i a m z => s!"s {i} {b01 a} {b01 m} {b01 z}"
   | .startOut i => s!"S {i}"
-  | .ready i a m => s!"y {i} {b01 a} {b01 m}"
+  | .ready i a m z => s!"y {i} {b01 a} {b01 m} {b01 z}"
   | .reloadIn r i => s!"l {r} {i}"
   | .reloadOut r i => s!"L {r} {i}"
   | .reqIn k => s!"q {k}"
@@ -157,14 +157,16 @@ def showObs (o : Obs) : String :=
   " ".intercalate (o.reqs.map showReqRes) ++ s!" RR {o.rounds.length} " ++
   " ".intercalate (o.rounds.map showRRes)
 
-def step (line : String) : String :=
+/-- `fx` = the variant of the code the implementation observations come from: `current` in a check run;
+    `C09_FIXES=abcde` (five 0/1 flags) lets the as-shipped model be validated against an as-shipped tree -/
+def stepWith (fx : Fixes) (line : String) : String :=
   match splitCase line with
   | none => "? bad-line"
   | some (id, inp, obs) =>
     match runP pScenario inp, runP pObs obs with
     | some sc, some o =>
-      let m0 := run current sc false
-      let m1 := run current sc true
+      let m0 := run fx sc false
+      let m1 := run fx sc true
       let mi := o == m0 || o == m1
       let s := Spec.holds sc o
       let d := Spec.classify sc
@@ -173,4 +175,15 @@ def step (line : String) : String :=
 
 end Rivaas.DriverC09
 
-def main : IO UInt32 := Rivaas.Proto.driverMain Rivaas.DriverC09.step
+def parseFixes (s : String) : Option Rivaas.Lifecycle.Fixes :=
+  match s.toList.map (· == '1') with
+  | [a, b, c, d, e] => some ⟨a, b, c, d, e⟩
+  | _ => none
+
+def main : IO UInt32 := do
+  let fx ← match (← IO.getEnv "C09_FIXES") with
+    | some s => match parseFixes s with
+      | some f => pure f
+      | none => do IO.eprintln "C09_FIXES must be five 0/1 flags (a b c d e)"; return 2
+    | none => pure Rivaas.Lifecycle.current
+  Rivaas.Proto.driverMain (Rivaas.DriverC09.stepWith fx)
